@@ -294,6 +294,12 @@ class Check:
         if rc != 0:
             self.oblige(label, False, out[-1500:])
             self.breaks.append({"kind": "K", "name": "engine-" + name, "detail": "engine failed rc=%s\n%s" % (rc, out[-3000:])})
+            if re.search(r"^(fatal error:|panic:|unexpected signal|SIGSEGV)", out, re.M):
+                # the engine runs the real code in-process: a Go fatal error / unrecovered panic under the
+                # engine's inputs is itself the failing observation (the process did not survive)
+                m = re.search(r"^(fatal error:.*|panic:.*|unexpected signal.*)$", out, re.M)
+                self.monitor.append({"class": "process-died", "what": "the process running the real code died under the engine's inputs: " + (m.group(1) if m else ""),
+                                     "input": {"engine": name, "seed": self.seed, "tier": self.tier, "output_tail": out[-2500:]}})
             return None
         rep = json.load(open(os.path.join(self.out, name + ".json")))
         self.cov["evaluations"] += rep["evaluations"]
